@@ -15,6 +15,8 @@ P["C01"] = dict(
               "dataflow rules on the registered fwd/inv pairs and the direction dispatch",
     decides=[
         "T-SERIES: for every PolynomialCoefficients table, inv is the exact series reversion of fwd to n^6 (both orders)",
+        "R-DISPATCH: Op::apply maps (inverted, direction) to the fwd/inv slot by the documented truth table; "
+        "handle_inversion toggles iff requested and invertible, else Err",
     ],
     not_decided=["numerical round-trip accuracy of any operator", "domain limits", "grid based shifts"],
     level="Decides structural clauses that are necessary conditions of 'inverse undoes forward' (see decides); does "
@@ -112,7 +114,11 @@ P["C04"] = dict(
              "increases the level by >= 1 on every path; the limit is a constant => nesting depth is bounded for "
              "every resource graph, cycles of any length included",
              "R-LOOP-RANK: every loop of op::*, token::*, context::* has a ranking function (finite iterator "
-             "advanced on every pass / monotone counter / unrefilled queue)"],
+             "advanced on every pass / monotone counter / unrefilled queue)",
+             "R-MACRO-ARGS: the body frame is built from the invocation text and arguments overwrite inherited values",
+             "R-CHASE-ORDER: chase searches locals before globals", "R-INV-SOURCE: inverted invocations are detected "
+             "from the parameter map", "R-LOOKUP-FRESH: a search with a changing key runs on a fresh iterator "
+             "(fails today: known finding)"],
     not_decided=["that $name, $name(d), (d) forms evaluate to the documented values", "precedence of values",
                  "equivalence of an invocation with its textual expansion", "stack frame sizes (101 levels assumed to fit)"],
     level="Decides termination of macro resolution (bounded recursion, terminating loops) as a structural proof "
@@ -140,7 +146,14 @@ P["C12"] = dict(
     claimed=True,
     technique="static analysis: key-availability and dispatch-exhaustiveness between stack::new and stack_fwd/stack_inv",
     decides=["R-KEY-AVAIL on the stack sub-commands: each arm reads the series its own sub-command stored",
-             "R-DISPATCH-EXHAUSTIVE: every action literal stored by stack::new has an arm in stack_fwd and stack_inv"],
+             "R-DISPATCH-EXHAUSTIVE: every action literal stored by stack::new has an arm in stack_fwd and stack_inv",
+             "R-STACK-DUAL: each arm of stack_fwd/stack_inv runs the documented primitive on its own series with the "
+             "documented argument transform (id / reverse / (m, m-n))",
+             "R-PUSHPOP-DUAL: legacy push and pop visit all four element flags, in opposite orders",
+             "R-PIPE-DUAL: the interpreter exchanges push/pop and stack_fwd/stack_inv between directions",
+             "R-UNDERFLOW-GUARD: every stack access is preceded by a depth test whose failing side stomps and returns 0",
+             "R-STACK-LOCAL: the stack is a fresh local of each application; no persistent storage of stack type",
+             "R-PIPE-MIN: an underflow (0) in any step makes the pipeline report 0"],
     not_decided=["abstract-machine equivalence of the primitives", "constructor-time numeric validation"],
     level="Decides that the dispatch tables are total and read the right keys; the machine semantics are only "
           "partially decided (see DESIGN.md).",
@@ -165,6 +178,24 @@ P["C15"] = dict(
     level="Decides the memory-safety style clauses (no out-of-bounds read, no division by zero, no unguarded unwrap, "
           "no unbounded loop or allocation) of the grid decoders on all paths; value faithfulness is not decided.",
     design_ref="DESIGN.md section 3, C15",
+)
+
+P["C03"] = dict(
+    claimed=True,
+    technique="static analysis: shape, typestate and provenance rules on the two pipeline interpreter functions found "
+              "through the operator registry; boolean abstract interpretation of the direction dispatch",
+    decides=["R-PIPE-ORDER: pipeline_fwd iterates op.steps in order, pipeline_inv in reverse, over all steps (no early "
+             "exit), dispatching each non-skipped step exactly once",
+             "R-PIPE-DUAL: skip flags / Direction constants / legacy push-pop-stack arms are exchanged between the "
+             "two directions as documented", "R-PIPE-MIN: the reported count is min over executed steps, len() if none",
+             "R-INV-SOURCE: every consumer of the inv modifier reads it from the tokenized parameter map",
+             "R-INV-SCOPE: the invocation's inv is removed from the globals handed to a macro body",
+             "R-DISPATCH: Op::apply/handle_inversion truth tables"],
+    not_decided=["</> desugaring and modifier rotation in the tokenizer", "bit-identity with stand-alone application "
+                 "(follows from the shape but is not separately checked)", "omit_* leaking through globals"],
+    level="Decides the interpreter's structure (order, duality, tally, modifier plumbing) on all paths; the "
+          "tokenizer's string rewriting is not decided.",
+    design_ref="DESIGN.md section 3, C03",
 )
 
 NA = {
